@@ -36,7 +36,7 @@ type modelEval struct {
 
 func newModelEval(o *Obligation) *modelEval {
 	q := o.smt(false)
-	return &modelEval{base: q, cache: map[string]string{}, deadline: time.Now().Add(30 * time.Second)}
+	return &modelEval{base: q, cache: map[string]string{}, deadline: time.Now().Add(12 * time.Second)}
 }
 
 // eval returns the model values of the given terms (one solver run).
